@@ -190,13 +190,16 @@ C1 = C(1)
 # ----------------------------------------------------------------------------- linear forms
 class Binder:
     """a bound summation variable lo <= v < hi (z3 Int const)"""
-    __slots__ = ("v", "lo", "hi")
+    kind = "range"
 
     def __init__(self, v, lo, hi):
         self.v, self.lo, self.hi = v, lo, hi
 
     def range_cond(self):
         return z3.And(self.v >= _lift(self.lo), self.v < _lift(self.hi))
+
+
+DefBinder = core.DefBinder
 
 
 class Term:
@@ -361,47 +364,55 @@ def _solve_for(eq_l, eq_r, v):
 
 
 def eliminate_binders(term, extra_eq=()):
-    """one-point rule: for each binder find an equation v == e among the guard conjuncts (or the extra
-    equalities idx_i == t_i) and substitute.  Returns a binder-free Term or None."""
+    """generalised one-point rule.  Bound variables are processed in creation order: a range variable is
+    replaced by the solution of an equation (a guard conjunct v == e, or one of the extra equalities
+    idx_i == t_i) in which it occurs with coefficient +-1; a functionally defined pair q, r := divmod(a, d)
+    is re-instantiated on the substituted arguments (division theorem: fresh witnesses with their defining
+    constraints added to the current context).  Returns a binder-free Term or None."""
     if not term.binders:
         return term
-    binders = list(term.binders)
-    guard = [z3.simplify(g) for g in term.guard]
-    coef, idx = term.coef, list(term.idx)
+    sub = []          # list of (var, value)
+
+    def ap(e):
+        return z3.substitute(e, *sub) if sub else e
     eqs = [(_lift(a), _lift(b)) for a, b in extra_eq]
-    progress = True
-    while binders and progress:
-        progress = False
-        cands = list(eqs)
-        for g in guard:
-            for gg in (g.children() if z3.is_and(g) else [g]):
-                if z3.is_eq(gg) and gg.arg(0).sort() == z3.IntSort():
-                    cands.append((gg.arg(0), gg.arg(1)))
-        for b in binders:
-            sol = None
-            for l, r in cands:
-                sol = _solve_for(l, r, b.v)
-                if sol is not None:
-                    break
-            if sol is None:
-                continue
-            sub = [(b.v, sol)]
-            rng = z3.substitute(b.range_cond(), *sub) if True else None
-            rng = z3.And(sol >= _lift(b.lo), sol < _lift(b.hi))
-            guard = [z3.substitute(g, *sub) for g in guard] + [rng]
-            idx = [z3.substitute(i, *sub) for i in idx]
-            coef = C(z3.substitute(coef.re, *sub), z3.substitute(coef.im, *sub))
-            eqs = [(z3.substitute(l, *sub), z3.substitute(r, *sub)) for l, r in eqs]
-            others = []
-            for ob in binders:
-                if ob is b:
-                    continue
-                others.append(Binder(ob.v, Sym(z3.substitute(_lift(ob.lo), *sub)), Sym(z3.substitute(_lift(ob.hi), *sub))))
-            binders = others
-            progress = True
-            break
-    if binders:
-        return None
+    conj = []
+    for g in term.guard:
+        g = z3.simplify(g)
+        conj += list(g.children()) if z3.is_and(g) else [g]
+    for g in conj:
+        if z3.is_eq(g) and g.arg(0).sort() == z3.IntSort():
+            eqs.append((g.arg(0), g.arg(1)))
+    extra_guard = []
+    pending = list(term.binders)
+    # variables of binders not yet processed (a solution must not mention them)
+    def later_vars(i):
+        out = []
+        for bb in pending[i:]:
+            out += [bb.q, bb.r] if bb.kind == "def" else [bb.v]
+        return out
+    for i, bnd in enumerate(pending):
+        if bnd.kind == "def":
+            a2, d2 = ap(bnd.a), ap(bnd.d)
+            if any(_contains(a2, v) or _contains(d2, v) for v in later_vars(i + 1)):
+                return None
+            q2, r2 = core._divmod_global(a2, d2)
+            sub += [(bnd.q, q2), (bnd.r, r2)]
+            continue
+        sol = None
+        for l, r in eqs:
+            l2, r2 = ap(l), ap(r)
+            cand = _solve_for(l2, r2, bnd.v)
+            if cand is not None and not any(_contains(cand, v) for v in later_vars(i + 1)):
+                sol = cand
+                break
+        if sol is None:
+            return None
+        sub.append((bnd.v, sol))
+        extra_guard.append(z3.And(sol >= ap(_lift(bnd.lo)), sol < ap(_lift(bnd.hi))))
+    guard = [ap(g) for g in conj] + extra_guard
+    idx = [ap(i) for i in term.idx]
+    coef = C(ap(term.coef.re), ap(term.coef.im))
     return Term((), guard, coef, term.atom, idx, term.conj)
 
 
@@ -581,6 +592,12 @@ class SArr:
 
     # --- indexing
     def __getitem__(self, idx):
+        if self.__dict__.get("_pending"):
+            raise Unsupported("read of an array that is being written inside the same generic loop nest")
+        if cur().binders:
+            sidx = _scalar_index(self, idx)
+            if sidx is not None:
+                return self.elem(sidx)
         shape, fmap = _index_map(self.shape, idx)
         if shape is None:     # scalar element
             return self.elem(fmap(())[0])
@@ -589,6 +606,13 @@ class SArr:
     def __setitem__(self, idx, value):
         if self.readonly:
             raise SValueError("assignment destination is read-only")
+        c = cur()
+        if c.binders:
+            sidx = _scalar_index(self, idx)
+            if sidx is None:
+                raise Unsupported("slice store inside a generic loop iteration")
+            self._loopstore(LoopStore(c.binders, c.__dict__.get("guards", []), sidx, LF.of(value), "="))
+            return
         shape, fmap = _index_map(self.shape, idx)
         tgt = self
         if self.base is not None and self.wmap is not None:
@@ -1374,7 +1398,8 @@ NP = _Numpy()
 def builtins_ns():
     """names that shadow builtins inside the compiled repo code"""
     return dict(max=core.sym_max, min=core.sym_min, all=core.sym_all, any=core.sym_any, sum=core.sym_sum,
-                abs=core.sym_abs, int=_int, range=sym_range, len=_len, isinstance=_isinstance, float=_float)
+                abs=core.sym_abs, int=_int, range=sym_range, len=_len, isinstance=_isinstance, float=_float,
+                __pyvc_iter=pyvc_iter, __pyvc_and=pyvc_and, __pyvc_or=pyvc_or, __pyvc_not=pyvc_not, __pyvc_augstore=pyvc_augstore, __pyvc_cond=pyvc_cond)
 
 
 _pyint = int
@@ -1426,39 +1451,23 @@ class SymRange:
     def __iter__(self):
         c = cur()
         cs = concrete(S(self.step))
-        if cs == 1:
-            v = fresh_int("it")
-            b = Binder(v, self.lo, self.hi)
-            c.binders.append(b)
-            c.notes.append(("binder", b))
-            try:
-                yield Sym(v)
-            finally:
-                c.binders.remove(b)
-        else:
+        v = fresh_int("it")
+        b = Binder(v, self.lo, self.hi)
+        mark = len(c.binders)
+        c.binders.append(b)
+        guards = c.__dict__.setdefault("guards", [])
+        gmark = len(guards)
+        if cs != 1:
             side_obligation("def:range-step-positive", _lift(self.step) > 0)
-            t = fresh_int("itq")
-            v = z3.simplify(_lift(self.lo) + t * _lift(self.step))
-            # number of iterations: t >= 0 and v < hi
-            b = Binder(t, 0, None)
-            b.hi = None
-            gb = GenericBinder(t, z3.And(t >= 0, v < _lift(self.hi)))
-            c.binders.append(gb)
-            try:
-                yield Sym(v)
-            finally:
-                c.binders.remove(gb)
-
-
-class GenericBinder(Binder):
-    """binder with an arbitrary range predicate"""
-
-    def __init__(self, v, cond):
-        self.v, self.cond = v, cond
-        self.lo = self.hi = None
-
-    def range_cond(self):
-        return self.cond
+            q, r = core._divmod(Sym(z3.simplify(v - _lift(self.lo))), S(self.step))
+            guards.append(r == 0)
+        try:
+            yield Sym(v)
+        finally:
+            del c.binders[mark:]
+            del guards[gmark:]
+            if not c.binders:
+                _commit_loops()
 
 
 def sym_range(*args):
@@ -1483,19 +1492,38 @@ def lf_atoms(*lfs):
     return out
 
 
-def lf_equal_goal(a, b, tag="t"):
-    """z3 Bool: the linear forms a and b are equal as functions of every input array (coefficient-wise,
-    for a fresh symbolic atom index), and their constant parts are equal.  Binders must be eliminable."""
+def _split_eq(x, y):
+    """x == y for real-valued coefficient terms, split into the two implications that nonlinear
+    index reasoning discharges quickly (x != 0 => y == x ; y != 0 => x == y)"""
+    x, y = z3.simplify(x), z3.simplify(y)
+    if x.eq(y):
+        return []
+    if not (z3.is_app_of(x, z3.Z3_OP_ITE) or z3.is_app_of(y, z3.Z3_OP_ITE)):
+        return [("eq", x == y)]
+    return [("fwd", z3.Implies(x != 0, y == x)), ("bwd", z3.Implies(y != 0, x == y))]
+
+
+def lf_equal_goals(a, b, tag="t"):
+    """list of (suffix, z3 Bool): together they state that the linear forms a and b are equal as functions of
+    every input array (coefficient-wise at a fresh symbolic atom index) and have equal constant parts."""
     a, b = LF.of(a), LF.of(b)
-    goals = [a.const.re == b.const.re, a.const.im == b.const.im]
+    goals = []
+    for nm, x, y in (("const.re", a.const.re, b.const.re), ("const.im", a.const.im, b.const.im)):
+        goals += [("%s:%s" % (nm, sfx), g) for sfx, g in _split_eq(x, y)]
     for (atom, cj), rank in lf_atoms(a, b).items():
         t = tuple(z3.Int("%s!%s%d" % (tag, atom, d)) for d in range(rank))
         ca, la = coef_of(a, atom, t, cj)
         cb, lb = coef_of(b, atom, t, cj)
         if la or lb:
             raise Unsupported("linear form with a summation that the one-point rule cannot eliminate (atom %s)" % atom)
-        goals += [ca.re == cb.re, ca.im == cb.im]
-    return z3.And(*goals)
+        nm = atom + ("*" if cj else "")
+        goals += [("%s.re:%s" % (nm, sfx), g) for sfx, g in _split_eq(ca.re, cb.re)]
+        goals += [("%s.im:%s" % (nm, sfx), g) for sfx, g in _split_eq(ca.im, cb.im)]
+    return goals or [("trivial", z3.BoolVal(True))]
+
+
+def lf_equal_goal(a, b, tag="t"):
+    return z3.And(*[g for _, g in lf_equal_goals(a, b, tag)])
 
 
 def adjoint_goal(fwd, adj, xname, yname, k, t):
@@ -1510,3 +1538,236 @@ def adjoint_goal(fwd, adj, xname, yname, k, t):
 
 def no_conj_terms(lf, atom):
     return not any(t.conj for t in lf.terms if t.atom == atom)
+
+
+# ----------------------------------------------------------------------------- generic iterations / loop stores
+class Guard:
+    def __init__(self, t):
+        self.t = t
+
+    def neg(self):
+        return Guard(z3.Not(self.t))
+
+    def __enter__(self):
+        cur().__dict__.setdefault("guards", []).append(self.t)
+        return self
+
+    def __exit__(self, *a):
+        cur().guards.pop()
+        return False
+
+
+def _mentions_binder(t):
+    bs = []
+    for b in cur().binders:
+        bs += [b.q, b.r] if b.kind == "def" else [b.v]
+    if not bs:
+        return False
+    # derived loop variables (v = lo + t*step) mention the binder syntactically as well
+    return any(core_contains(t, b) for b in bs)
+
+
+def core_contains(e, v):
+    return _contains(e, v)
+
+
+def pyvc_cond(test, unsafe, names):
+    if isinstance(test, bool):
+        return test
+    if isinstance(test, Sym):
+        test = SymBool(test.t != 0)
+    if not isinstance(test, SymBool):
+        return bool(test)
+    c = concrete(test)
+    if c is not None:
+        return c
+    if not _mentions_binder(test.t):
+        return bool(test)
+    if unsafe or names:
+        raise Unsupported("conditional on a generic loop variable with control flow or local assignments (%s)" % (names,))
+    return Guard(test.t)
+
+
+def pyvc_and(*thunks):
+    acc = []
+    last = True
+    for th in thunks:
+        v = th()
+        last = v
+        if isinstance(v, (SymBool,)) or (isinstance(v, Sym) and concrete(v) is None):
+            cv = concrete(v)
+            if cv is None:
+                acc.append(v if isinstance(v, SymBool) else SymBool(v.t != 0))
+                continue
+            v = cv
+        if not v:
+            return v if not acc else False
+    if not acc:
+        return last
+    return core.And(*acc)
+
+
+def pyvc_or(*thunks):
+    acc = []
+    last = False
+    for th in thunks:
+        v = th()
+        last = v
+        if isinstance(v, (SymBool,)) or (isinstance(v, Sym) and concrete(v) is None):
+            cv = concrete(v)
+            if cv is None:
+                acc.append(v if isinstance(v, SymBool) else SymBool(v.t != 0))
+                continue
+            v = cv
+        if v:
+            return v if not acc else True
+    if not acc:
+        return last
+    return core.Or(*acc)
+
+
+def pyvc_not(v):
+    if isinstance(v, SymBool):
+        return core.Not(v)
+    if isinstance(v, Sym):
+        return SymBool(v.t == 0)
+    return not v
+
+
+def pyvc_iter(it, carried):
+    if isinstance(it, SymRange):
+        if carried:
+            raise Unsupported("loop over a symbolic range with loop-carried variables %s (needs an invariant)" % (carried,))
+        return it
+    return it
+
+
+_OPS = {"Add": lambda a, b: a + b, "Sub": lambda a, b: a - b, "Mult": lambda a, b: a * b, "Div": lambda a, b: a / b}
+
+
+class LoopStore:
+    def __init__(self, binders, guards, idx, value, op):
+        self.binders, self.guards, self.idx, self.value, self.op = tuple(binders), tuple(guards), tuple(idx), value, op
+
+
+def _scalar_index(arr, idx):
+    if not isinstance(idx, tuple):
+        idx = (idx,)
+    if len(idx) != arr.ndim or any(isinstance(i, slice) or i is None or i is Ellipsis for i in idx):
+        return None
+    out = []
+    for i, n in zip(idx, arr.shape):
+        side_obligation("index-in-bounds", z3.And(_lift(i) >= -_lift(n), _lift(i) < _lift(n)))
+        t = _lift(i)
+        if z3.is_true(z3.simplify(t >= 0)) or _provable(t >= 0):
+            out.append(t)
+        else:
+            out.append(z3.If(t < 0, t + _lift(n), t))
+    return tuple(out)
+
+
+def _provable(goal):
+    """is goal implied by the current path condition, loop-variable ranges and guards? (cheap solver call)"""
+    c = cur()
+    hy = c.hyps() + [b.range_cond() for b in c.binders] + list(c.__dict__.get("guards", []))
+    return core._check(hy + [z3.Not(goal)], 1000) == z3.unsat
+
+
+def pyvc_augstore(obj, idx, op, val):
+    c = cur()
+    if isinstance(obj, SArr) and c.binders:
+        sidx = _scalar_index(obj, idx)
+        if sidx is None:
+            raise Unsupported("slice store inside a generic loop iteration")
+        if op == "Add":
+            delta = LF.of(val)
+        elif op == "Sub":
+            delta = -LF.of(val)
+        else:
+            raise Unsupported("augmented store %s inside a generic loop iteration" % op)
+        obj._loopstore(LoopStore(c.binders, c.__dict__.get("guards", []), sidx, delta, "+="))
+        return
+    cur_v = obj[idx]
+    if isinstance(cur_v, SArr):
+        # view: in-place arithmetic on a slice == store of the result
+        obj[idx] = _OPS[op](cur_v.copy(), val)
+    else:
+        obj[idx] = _OPS[op](cur_v, val)
+
+
+def _loopstore(self, st):
+    c = cur()
+    if self.base is not None:
+        raise Unsupported("loop store through a view")
+    pend = self.__dict__.setdefault("_pending", [])
+    pend.append(st)
+    reg = c.__dict__.setdefault("loop_arrays", [])
+    if self not in reg:
+        reg.append(self)
+
+
+def _injectivity_obligation(p):
+    """a plain `=` store in a loop nest is a gather only if no two iterations write the same cell"""
+    vs = []
+    for b in p.binders:
+        vs += [b.q, b.r] if b.kind == "def" else [b.v]
+    primed = [(v, z3.Int(str(v) + "'")) for v in vs]
+    G = z3.And(*(list(p.guards) + [b.range_cond() for b in p.binders])) if (p.guards or p.binders) else z3.BoolVal(True)
+    G2 = z3.substitute(G, *primed)
+    same = z3.And(*[i == z3.substitute(i, *primed) for i in p.idx])
+    rng = [b.v for b in p.binders if b.kind != "def"]
+    eq = z3.And(*[v == z3.substitute(v, *primed) for v in rng])
+    c = cur()
+    c.side.append(("store-is-injective(=-not-accumulate)", c.hyps(), z3.Implies(z3.And(G, G2, same), eq)))
+
+
+def _commit_loops():
+    c = cur()
+    for arr in c.__dict__.get("loop_arrays", []):
+        pend = arr.__dict__.pop("_pending", [])
+        if not pend:
+            continue
+        old = arr._elem
+        ops = {p.op for p in pend}
+        if ops == {"+="}:
+            def el(k, old=old, pend=pend):
+                acc = old(k)
+                for p in pend:
+                    v = p.value
+                    g = tuple(p.guards) + tuple(i == kd for i, kd in zip(p.idx, k)) + tuple(b.range_cond() for b in p.binders)
+                    if not v.const.is_zero():
+                        raise Unsupported("accumulation of a constant over a symbolic loop")
+                    acc = acc + LF(C0, [Term(tuple(p.binders) + t.binders, g + t.guard, t.coef, t.atom, t.idx, t.conj) for t in v.terms])
+                return acc
+            arr._elem = el
+        elif ops == {"="}:
+            def el(k, old=old, pend=pend):
+                res = old(k)
+                for p in pend:     # later stores win
+                    # solve idx == k for the binders (one-point rule); unsolved binders mean a non-injective store
+                    probe = Term(p.binders, tuple(p.guards) + tuple(b.range_cond() for b in p.binders), C1, "@probe", p.idx)
+                    solved = eliminate_binders(probe, extra_eq=list(zip(p.idx, k)))
+                    if solved is None:
+                        _injectivity_obligation(p)
+                        raise Unsupported("store inside a loop whose index does not determine the loop variables (not injective)")
+                    # substitute the same solution into the value: rebuild by eliminating on each value term
+                    hit = z3.And(*(list(solved.guard) + [i == kd for i, kd in zip(solved.idx, k)]))
+                    v = p.value
+                    terms = []
+                    for t in v.terms:
+                        tt = Term(tuple(p.binders) + t.binders, tuple(p.guards) + tuple(b.range_cond() for b in p.binders) + t.guard + tuple(i == kd for i, kd in zip(p.idx, k)),
+                                  t.coef, t.atom, t.idx, t.conj)
+                        terms.append(tt)
+                    cv = v.const
+                    if not cv.is_zero():
+                        # constant stores (e.g. mask[i] = 1): value may depend on binders only through the solved point
+                        raise Unsupported("constant store inside a symbolic loop")
+                    res = LF(C0, terms) + res.guarded(z3.Not(hit))
+                return res
+            arr._elem = el
+        else:
+            raise Unsupported("mixed = and += stores to one array inside a loop nest")
+    c.__dict__["loop_arrays"] = []
+
+
+SArr._loopstore = _loopstore
